@@ -705,6 +705,11 @@ def _if_of(stmt: ast.AST) -> ast.AST:
 PARTIAL = "pytestarch.utils.partial_match_to_regex_converter"
 
 
+def _allow_r3(caller: FuncInfo, callee: FuncInfo) -> bool:
+    # the translation of a partial name is vocabulary of the rule (its correctness is C08's business)
+    return callee.module.name != PARTIAL
+
+
 def _ctor_class(fn: Fn, call: ast.AST) -> str:
     """Fully qualified name of the repo class a call expression constructs ('' if it is not a constructor call)."""
     if not isinstance(call, ast.Call):
@@ -757,7 +762,7 @@ def run_r3(repo: Repo, res: Result) -> None:
     if m is None:
         res.observe("Rule.have_name_containing no longer exists (deprecated form removed): C11.R3 not applicable")
         return
-    view = inline_view(repo, m, T)
+    view = inline_view(repo, m, T, allow=_allow_r3)
     fn = Fn(repo, view)
     co = Collections(fn)
     param = view.param_names[1]
@@ -919,12 +924,16 @@ def run_r4(repo: Repo, res: Result) -> None:
             continue
         # ---- all keys: one entry per element of the given module collections, nothing filtered
         bad: list[str] = []
+        unsure: list[str] = []
         key_params: list[str] = []
         for c in contribs:
             for b in c.binders:
                 src = dotted(b.source)
                 if not b.root or src not in params:
-                    bad.append(f"the entries range over `{norm(b.source, 60)}`, which is not one of the given module collections")
+                    if isinstance(b.source, ast.Call) and not any(isinstance(x, ast.Name) and x.id == "self" for x in ast.walk(b.source)):
+                        unsure.append(f"the entries range over `{norm(b.source, 60)}`, which is not recognised as a copy of the given module collections")
+                    else:
+                        bad.append(f"the entries range over `{norm(b.source, 60)}`, which is not one of the given module collections")
                 elif src not in key_params:
                     key_params.append(src)
             if not c.binders:
@@ -934,6 +943,8 @@ def run_r4(repo: Repo, res: Result) -> None:
         for r_ in removals:
             bad.append(f"entries are removed again (`{norm(r_.node, 60)}`)")
         n += 1
+        if unsure and not bad:
+            res.undecide("C11.R4", base_key + " [all keys]", unsure[0], where(view, key_node))
         res.add(
             "C11.R4",
             base_key + " [all keys]",
